@@ -258,7 +258,9 @@ def _qemu(ctx):
             '64K (65536 bytes)', '1 (2 bytes)', '3 B', '3B', '2 k', 'junk',
             '1.5 TB', '7 Z', '9Y', '4R', '5Q', '1.5', '12 bytes', '0',
             '197K (200704 bytes)', '1.0G (1073741824 bytes)', '8T', '2M',
-            '6 Mi', '1 b')
+            '6 Mi', '1 b', '2K (0 bytes)', '512 (0 bytes)', '0 (0 bytes)',
+            '9007199254740993', '18446744073709551615',
+            '12345678901234567890B', '1.0G (1073741825 bytes)')
     grid_compare(rep, 'R10.6', 'QemuImgInfo._extract_bytes',
                  'human-readable size strings', outcomes, {details: grid},
                  oracle, hooks=[s2b_hook, rxmodel.hook], value_eq=close)
